@@ -433,7 +433,7 @@ theorem bit7_mod : ∀ x : Fin 128, (UInt8.ofNat (x.val ||| 0x80)).toNat % 128 =
 theorem framed_sf (r : Request) (s : Service) (sf : Nat) (p : Bytes) (hs : r.service = some s) (hu : s.useSubfn = true) (h1 : s.sid < 256)
     (hsf : r.subfunction = some sf) (h2 : sf < 128) (hr : r.spr = false) (hf : Framed r p) :
     p[0]? = some (UInt8.ofNat s.sid) ∧ frameSf p = some sf ∧ p.drop 2 = r.data.getD [] := by
-  obtain ⟨a, b⟩ := Uds.Props.C09.payload_with_subfn r s sf hs hu hsf h1 h2 hr
+  obtain ⟨a, b⟩ := Uds.Props.C09.payload_with_subfn r s sf hs hu hsf h1 (by omega) hr
   obtain ⟨m1, m2⟩ := bit7_mod ⟨sf, h2⟩
   rcases hf with hf | hf
   · rw [a] at hf; cases hf
